@@ -498,6 +498,43 @@ def havoc(self: Interp, target: str, st: State, callee_env=None):
         self.in_contract -= 1
 
 
+def inline_call(self: Interp, key, module, cls, fn, selfv, args, kwargs, st: State, node):
+    """A callee WITHOUT a contract is executed symbolically in place (its body is then verified as part of the caller:
+    nothing is assumed about it).  Not for recursion, depth <= 3; loops in it need an invariant or a concrete bound."""
+    stack = getattr(self, "_inline_stack", [])
+    if key in stack or len(stack) >= 3:
+        raise Unsupported(f"call to {key}, which has no contract (recursive or too deep to inline)")
+    from .engine import Frame as _Frame
+    lib.used(f"inlined callee without a contract (verified as part of the caller): {key}")
+    decos = getattr(fn, "_decos", [])
+    has_self = cls is not None and "staticmethod" not in decos
+    env = self.bind_formals(fn, has_self, args, kwargs, st)
+    if has_self:
+        env["self" if "classmethod" not in decos else "cls"] = selfv
+    caller_env, caller_frame = st.env, self.frame
+    frame = _Frame(module, cls, fn, None, caller_frame.pre if caller_frame is not None else None)
+    self._inline_stack = stack + [key]
+    try:
+        self.frame = frame
+        st.env = env
+        outs = self.exec_block(list(fn.body), st)
+    finally:
+        self.frame = caller_frame
+        self._inline_stack = stack
+        st.env = caller_env
+    results = []
+    for o in outs:
+        o.state.env = dict(caller_env)
+        if o.kind in ("normal", "return"):
+            v = o.value if (o.kind == "return" and o.value is not None) else NONE
+            results.append((o.state, v, None))
+        elif o.kind == "raise":
+            results.append((o.state, None, o.value))
+        else:
+            raise Unsupported("break/continue escaping an inlined function")
+    return results
+
+
 def apply_contract(self: Interp, key, selfv, args, kwargs, st: State, node):
     c = self.reg["contracts"].get(key)
     info = self.repo.get_function(key)
@@ -505,7 +542,7 @@ def apply_contract(self: Interp, key, selfv, args, kwargs, st: State, node):
         raise Unsupported(f"callee {key} not found in the repository")
     module, cls, fn = info
     if c is None:
-        raise Unsupported(f"call to {key}, which has no contract")
+        return inline_call(self, key, module, cls, fn, selfv, args, kwargs, st, node)
     decos = getattr(fn, "_decos", [])
     has_self = cls is not None and "staticmethod" not in decos
     env = self.bind_formals(fn, has_self, args, kwargs, st)
